@@ -11,7 +11,7 @@
     ([C15_history_with_reset], compare [C01_refinement_every_history]).  Resources,
     listeners and batch operations after Reset: correspondence run (profile reset). *)
 From Arche Require Import Model.Base Model.Pool Model.World Model.Ops Proofs.Misc
-  Proofs.Store Proofs.RelGraph Proofs.RelWorld Proofs.RelRefine Proofs.QueryExact Proofs.CacheInv Proofs.ResetInv.
+  Proofs.Store Proofs.RelGraph Proofs.RelWorld Proofs.RelRefine Proofs.QueryExact Proofs.CacheInv Proofs.ResetInv Proofs.SpecDet.
 
 Theorem C15_reset_state : forall w,
   let w' := world_reset w in
@@ -48,9 +48,21 @@ Proof.
   destruct (reset_refines w I) as (HR0 & C0 & _). by rewrite (r_reg _ _ HR).
 Qed.
 
+(** Observationally: after Reset - whatever the world contained - every history of the
+    single-entity core gives the same outcomes, values and handles as on any world that
+    refines the empty store with the same registry and has a fresh pool, e.g. a new world
+    after the same registrations. *)
+Theorem C15_reset_behaves_like_new : forall w A wn ops,
+  R w A -> cache_ok w ->
+  R wn (mkAS [] [] [] (as_reg A)) -> w_pool wn = pool_init -> w_tb wn = w_tb w ->
+  det_run (mkAS [] [] [] (as_reg A)) pool_init (w_tb w) ops ->
+  outcomes (world_reset w) ops = outcomes wn ops.
+Proof. exact reset_like_new. Qed.
+
 Example C15_nonvacuous : pre_run3 (world_init 4 4 64) a_init demo_reset_ops.
 Proof. exact demo_reset_pre. Qed.
 
 Print Assumptions C15_reset_state.
+Print Assumptions C15_reset_behaves_like_new.
 Print Assumptions C15_reset_refines.
 Print Assumptions C15_history_with_reset.
